@@ -234,6 +234,15 @@ RTCase(i) ==
       fj == [RTField("a", "json", i.kj, Lits[i.lj]) EXCEPT !.name = [exact |-> "gammaKey", snake |-> "gamma_key", initial |-> "GammaKey"]]
   IN CaseJ("roundtrip", "typed", TRUE, <<fp, ff, fh, fj>>, <<fp.out, ff.out, fh.out, fj.out>>)
 
+\* --------------------------------------------------------------- family: axioms
+\* The numeric facts this specification takes as given (TLC cannot compute with 64-bit values):
+\* the order of Points, every literal's position / integrality / float exactness, the bounds of
+\* the integer kinds.  They are printed once and re-derived by the driver with math/big.
+AxiomsCase ==
+  [family |-> "axioms", points |-> Points,
+   lits |-> [i \in 1..NLits |-> Lits[i]],
+   bounds |-> [k \in IntKinds |-> [lo |-> KLo[k], hi |-> KHi[k]]]]
+
 \* --------------------------------------------------------------- spec
 Init ==
   CASE Family = "single" -> SingleInit
@@ -241,6 +250,7 @@ Init ==
     [] Family \in {"slice", "map"} -> ContInit(Family)
     [] Family \in {"nested", "inherit"} -> NestInit(Family)
     [] Family = "roundtrip" -> RTInit
+    [] Family = "axioms" -> inp = [family |-> "axioms"]
 
 Next == UNCHANGED inp
 Spec == Init /\ [][Next]_inp
@@ -251,6 +261,7 @@ CaseOf(i) ==
     [] i.family \in {"slice", "map"} -> ContCase(i)
     [] i.family \in {"nested", "inherit"} -> NestCase(i)
     [] i.family = "roundtrip" -> RTCase(i)
+    [] i.family = "axioms" -> AxiomsCase
 
 Emit == PrintT(ToJson(CaseOf(inp)))
 
